@@ -39,12 +39,13 @@ PROPS = {
         "invariant growth and 'supply never below the locked minimum over all histories' are not theorems (correspondence only; "
         "stableswap rounding is known finding F-ss-round)."),
     "C05": P("Props/C05.v", [("farm-scn", 48, 600), ("fault-scn", 24, 300), ("manyfarms-scn", 8, 100)],
-        "PARTIAL. Proved per handler for all inputs: what each farm-manager message adds to / removes from the recorded obligations "
-        "and what it sends (positions created/topped up with exactly the attached LP; withdrawals pay at most the recorded amount "
-        "and delete the position; farm creation/expansion/closing; claims never raise claimed beyond the funded amount). NOT "
-        "proved: the inductive custody invariant over all histories. It is decided on every run on the implementation's own "
-        "snapshots by the Coq-defined monitor mon_C05 (balance >= locked LP + unclaimed budgets per denom after every operation, "
-        "incl. reward denom = LP denom, emergency exits with several farm owners, failing refunds) plus the correspondence.",
+        "FULL PROOF of the custody invariant over all histories: per-message accounting for every farm-manager message, sender "
+        "and funds (obligations' + sent <= obligations + attached funds, per denom), then induction over the chain interpreter "
+        "(arbitrary call trees, the pool manager locking LP for depositors, replies, rejected operations, injected faults at every "
+        "bank call, tolerated refund failures): in every world reachable from genesis, for every denom, the farm manager's bank "
+        "balance >= all positions' recorded LP + (funded - claimed) of all live farms; reward denom = LP denom covered. Assumes "
+        "transactions are not signed by the farm manager's own address. The same inequality is evaluated on the implementation's "
+        "snapshots by the Coq monitor mon_C05 on every run.",
         monitor="mon_C05"),
     "C06": P("Props/C06.v", [("farm-scn", 64, 800), ("manyfarms-scn", 16, 200)],
         "PARTIAL. Proved: every reward entry is floor(rate*share) for an epoch strictly after the claimant's cursor, from the farm's "
